@@ -20,6 +20,26 @@ MODP = "coxeter.shapes.polyhedron"
 COORD = (X, Y, Z)
 
 
+def _concretise(chk, name, fk, expr, reference, centre=None):
+    """cross-check of the engine (pyvc.concrete): the symbolic value with the arrays of a real, placed U-shaped voxel solid (vertices, faces, the
+    triangles its own surface triangulation yields) against the same member run by CPython on that object"""
+    from pyvc import concrete
+    from .common import real_coxeter
+    from . import bounded_c02 as B2
+    cox = real_coxeter()
+    verts, faces = B2.voxel_mesh(B2.voxel_solids()["U7"])
+    o = cox.shapes.Polyhedron(np.asarray(verts, float) + np.array([1.5, -0.5, 0.25]), [list(f) for f in faces])
+    tri = np.array([[np.asarray(v, float) for v in t] for t in o._surface_triangulation()])          # (T, 3, 3)
+    V = np.asarray(o.vertices, float)
+    Fc = np.array([list(f) for f in o.faces])
+    scal = {}
+    if centre is not None:
+        cen = np.asarray(o.centroid, float)
+        scal = {centre[j]: float(cen[j]) for j in range(3)}
+    env = concrete.Env(sizes={H.N: len(V), H.F: len(Fc), H.LF: Fc.shape[1], H.T: len(tri)}, arrays={"Vh": V, "Fch": Fc, "Tr": tri}, scalars=scal)
+    concrete.cross_check(chk, name, fk, expr, env, (), np.asarray(reference(o)), rtol=1e-9)
+
+
 def run(chk):
     ld = chk.loader()
     shapes = ld.load("coxeter.shapes")
@@ -152,6 +172,8 @@ def run(chk):
         for p in chk.explore(fk_c, run_c, assumptions=facts):
             cen = p.value
             for i in range(3):
+                _concretise(chk, f"Polyhedron.centroid[{'xyz'[i]}]", fk_c, ex(cen[i]), lambda o, i=i: o.centroid[i])
+            for i in range(3):
                 num, den = sp.fraction(sigma.cancel_sums(ex(cen[i])))
                 # cen_i = num/den; claim num/den == M[x_i]/M[1]: the two certificates below establish
                 # den == c * M[1] and num == c * M[x_i] for the same constant c
@@ -177,6 +199,9 @@ def run(chk):
             return o._compute_inertia_tensor()
         for p in chk.explore(fk_i, run_it, assumptions=facts):
             it = p.value
+            for i in range(3):
+                for j in range(i, 3):
+                    _concretise(chk, f"Polyhedron._compute_inertia_tensor[{i}{j}]", fk_i, ex(it[i, j]), lambda o, i=i, j=j: o._compute_inertia_tensor()[i, j], centre=c)
             for i in range(3):
                 for j in range(i, 3):
                     h = (r2 if i == j else 0) - COORD[i] * COORD[j]
